@@ -1118,7 +1118,18 @@ class PhasedVcfWriter(VcfAugmenter):
         phase -- tuple of alleles
         """
         assert all(allele in [0, 1] or self._mav for allele in phase)
-        call["HP"] = ",".join(f"{component + 1}-{allele + 1}" for allele in phase)
+        # One entry per allele of the GT field, in GT order: the haplotype that carries it
+        gt = call["GT"]
+        if gt is not None and sorted(a for a in gt if a is not None) == sorted(phase):
+            unused = list(range(len(phase)))
+            haplotypes = []
+            for allele in gt:
+                haplotype = next(h for h in unused if phase[h] == allele)
+                unused.remove(haplotype)
+                haplotypes.append(haplotype)
+        else:
+            haplotypes = list(phase)
+        call["HP"] = ",".join(f"{component + 1}-{haplotype + 1}" for haplotype in haplotypes)
         if haploid_component:
             call["HS"] = [comp + 1 for comp in haploid_component]
 
